@@ -246,7 +246,7 @@ def near_valid_frame(draw, pic):
     version = pic.version
     for _ in range(4):
         fields = list(draw(valid_frame(pic)))
-        which = draw(st.sampled_from(["node", "child", "ack", "sub", "cmd", "payload", "child255"]))
+        which = draw(st.sampled_from(["node", "child", "ack", "sub", "cmd", "payload", "payload", "payload", "child255"]))
         if which == "node":
             fields[0] = draw(st.sampled_from([-1, 256, 1000]))
         elif which == "child":
@@ -263,6 +263,15 @@ def near_valid_frame(draw, pic):
         elif which == "payload":
             rule = T.payload_rule(version, fields[2], fields[4])
             bad = violating(rule)
+            if bad is None and fields[2] in (T.SET, T.PRESENTATION, T.INTERNAL):
+                # free-text rule: move to a sub-type of the same command whose payload IS constrained
+                # (percentages, binary, words, colours, positions, counters, versions ...)
+                constrained = [s for s in range(T.MAX_SUB[version][fields[2]] + 1) if violating(T.payload_rule(version, fields[2], s)) is not None]
+                if constrained:
+                    fields[4] = draw(st.sampled_from(constrained))
+                    if fields[2] == T.PRESENTATION and T.payload_rule(version, fields[2], fields[4])[0] == "version":
+                        fields[1] = 255
+                    bad = violating(T.payload_rule(version, fields[2], fields[4]))
             if bad is not None:
                 fields[5] = draw(bad)
         if V.validate(version, tuple(fields)) is False:
@@ -386,7 +395,7 @@ def fw_update(draw, pic, max_len=200):
 @st.composite
 def histories(draw, versions=T.VERSIONS, max_ops=30, invalid=True, controller=True, ota=True,
               cb_raise=True, wire_carriable=True, wild_vt=False, frame_kinds=None, min_ops=1, op_weights=None, allow_unpinned=False,
-              flavours=("sync", "sync", "async")):
+              flavours=("sync", "sync", "async"), respell=True):
     version = draw(st.sampled_from(list(versions)))
     pic = Picture(version)
     n_ops = draw(st.integers(min_ops, max_ops))
@@ -422,7 +431,16 @@ def histories(draw, versions=T.VERSIONS, max_ops=30, invalid=True, controller=Tr
     for _ in range(n_ops):
         roll = draw(st.sampled_from(table))
         if roll == "valid":
-            ops.append({"op": "line", "text": frame(draw(valid_frame(pic, frame_kinds)))})
+            text = frame(draw(valid_frame(pic, frame_kinds)))
+            if respell and draw(st.integers(0, 11)) == 0:
+                # the same message in another spelling int() accepts: '+5', '05', ' 5', '5 ', '1_7', '-0'
+                parts = text.split(";")
+                k = draw(st.integers(0, 4))
+                n = parts[k]
+                options = ["+" + n, "0" + n, " " + n, n + " ", "\t" + n] + (["-0"] if n == "0" else []) + ([n[0] + "_" + n[1:]] if len(n) >= 2 else [])
+                parts[k] = draw(st.sampled_from(options))
+                text = ";".join(parts)
+            ops.append({"op": "line", "text": text})
         elif roll == "near":
             ops.append({"op": "line", "text": frame(draw(near_valid_frame(pic)))})
         elif roll == "raw":
